@@ -364,9 +364,46 @@ func verifC13Run(t *testing.T, dbPath string, s *verifC13Scenario,
 	start()
 	restartIfDead()
 
+	// Diagnostic only: at quiescence the durable contracts should be the
+	// resolvers that are live in memory (same key, same kind), i.e. swaps
+	// reached the log.
+	typeDiffs := map[string]bool{}
+	compareDurable := func() {
+		if len(stops) != 0 || cur.dead.Load() {
+			return
+		}
+		bl, ok := cur.arb.log.(*boltArbitratorLog)
+		if !ok {
+			return
+		}
+		cs, err := bl.FetchUnresolvedContracts()
+		if err != nil {
+			return
+		}
+		durable := map[string]string{}
+		for _, c := range cs {
+			n, _, _ := verifCCResolverName(c)
+			durable[string(c.ResolverKey())] = n
+		}
+		cur.arb.activeResolversLock.RLock()
+		for _, r := range cur.arb.activeResolvers {
+			if r.IsResolved() || r.ResolverKey() == nil {
+				continue
+			}
+			n, _, _ := verifCCResolverName(r)
+			if d, ok := durable[string(r.ResolverKey())]; ok &&
+				d != n {
+
+				typeDiffs[d+"->"+n] = true
+			}
+		}
+		cur.arb.activeResolversLock.RUnlock()
+	}
+
 	step := func(fn func()) {
 		fn()
 		w.quiesce(t, cur)
+		compareDurable()
 		restartIfDead()
 	}
 
@@ -419,6 +456,10 @@ func verifC13Run(t *testing.T, dbPath string, s *verifC13Scenario,
 	out.StopKinds = stopKind
 	out.RestartIn = restIn
 	out.Lost = lost
+	for d := range typeDiffs {
+		diags = append(diags, "durable-kind-differs-from-live:"+d)
+	}
+	sort.Strings(diags)
 	out.Diags = diags
 	cur.stop()
 
@@ -650,6 +691,10 @@ func TestVerifC13(t *testing.T) {
 						"uninterrupted: %s -> %v", k, v),
 					map[string]any{"scenario": s, "run": ref})
 			}
+		}
+
+		for _, d := range ref.Diags {
+			vc.Diag("uninterrupted", d)
 		}
 
 		kinds := map[string]bool{}
